@@ -724,7 +724,7 @@ pub fn c13_redo_case(seed: u64, case: u64) -> CaseResult {
         Outcome::Ok((Some(_), Some(c2), Some(c3))) => (c2, c3),
         Outcome::Ok(_) => {
             // D2 == D1 (the mutation changed nothing): no such history, nothing to judge
-            res.aborted = Some("degenerate documents".into());
+            res.count("c13_redo_degenerate", 1);
             return res;
         }
         o => {
